@@ -22,11 +22,13 @@ JOBS = int(os.environ.get("C17_JOBS", "8"))
 # ------------------------------------------------------------------ modes
 class Mode:
     def __init__(self, name, flags, dec=False, keep=False, force=False, stdout=False, nosync=False, files=False,
-                 nf=1, pre=None, threads=1, inputs=None, sparse=False, big=False):
+                 nf=1, pre=None, threads=1, inputs=None, sparse=False, big=False, kinds=None):
         self.name = name; self.flags = flags; self.dec = dec; self.keep = keep; self.force = force
         self.stdout = stdout; self.nosync = nosync; self.files = files; self.nf = nf
         self.pre = pre or [False] * nf; self.threads = threads
         self.inputs = inputs or ["good"] * nf; self.sparse = sparse; self.big = big
+        # plaintext shape per file: "plain" | "big" | "sparse" | "holefirst" | "zerotrunc"
+        self.kinds = kinds or [("sparse" if sparse else "big" if big else "plain")] * nf
 
     def cfg(self):
         return dict(dec=self.dec, keep=self.keep, force=self.force, stdout=self.stdout, nosync=self.nosync,
@@ -47,7 +49,12 @@ def modes(quick):
          Mode("d-corrupt", ["-d"], dec=True, inputs=["corrupt"], big=True),
          Mode("d-badformat-2", ["-d"], dec=True, nf=2, inputs=["badformat", "good"]),
          Mode("d-force", ["-df"], dec=True, force=True),
-         Mode("d-nosync", ["-d", "--no-sync"], dec=True, nosync=True, big=True)]
+         Mode("d-nosync", ["-d", "--no-sync"], dec=True, nosync=True, big=True),
+         # the FIRST of two files fails at every position (also while decoded zeros are a pending hole);
+         # the SECOND must come out complete, byte for byte
+         Mode("d-2f-holefirst", ["-d"], dec=True, nf=2, kinds=["holefirst", "plain"]),
+         Mode("d-2f-zerotrunc", ["-d"], dec=True, nf=2, inputs=["corrupt", "good"], kinds=["zerotrunc", "plain"]),
+         Mode("d-list-holefirst", ["-d"], dec=True, nf=2, files=True, kinds=["holefirst", "sparse"])]
     if not quick:
         # the same modes with the other coder (-T1: single-threaded encoder / direct decoder path; -T4: threaded)
         import copy
@@ -68,12 +75,17 @@ class Case:
 def content(mode, i, seed):
     import random
     r = random.Random("%s/%s/%d" % (seed, mode.name, i))
-    if mode.sparse:
-        blk = lambda n: bytes(r.getrandbits(8) for _ in range(n))
+    blk = lambda n: bytes(r.getrandbits(8) for _ in range(n))
+    kind = mode.kinds[i]
+    if kind == "sparse":        # hole in the middle, hole at the end (lseek + write of one byte in io_close)
         return blk(8192) + bytes(16384) + blk(8192) + bytes(16384)
-    n = 70000 if mode.big else 3000 + 500 * i
+    if kind == "holefirst":     # the zeros are still a pending hole when the second read() of the source happens
+        return bytes(65536) + blk(30000)
+    if kind == "zerotrunc":     # only zeros: everything decoded is a pending hole when the input ends too early
+        return bytes(1 << 20)
+    n = 70000 if kind == "big" else 3000 + 500 * i
     # half compressible
-    return bytes(r.getrandbits(8) for _ in range(n // 2)) + bytes(r.randrange(3) for _ in range(n - n // 2))
+    return blk(n // 2) + bytes(r.randrange(3) for _ in range(n - n // 2))
 
 def make_inputs(mode, seed):
     """Returns (list of source bytes, list of expected output bytes or None)."""
@@ -87,6 +99,8 @@ def make_inputs(mode, seed):
         x = lzma.compress(plain, format=lzma.FORMAT_XZ, preset=1)
         if kind == "good":
             srcs.append(x); outs.append(plain)
+        elif kind == "corrupt" and mode.kinds[i] == "zerotrunc":
+            srcs.append(x[:-16]); outs.append(None)        # Index tail + Stream Footer cut off
         elif kind == "corrupt":
             b = bytearray(x); b[len(b) * 2 // 3] ^= 0x55
             srcs.append(bytes(b)); outs.append(None)
@@ -193,10 +207,10 @@ class Runner:
                      "complete" if outs[i] is not None and b == outs[i] else "partial")
         return S, D
 
-def events_of(case, res, expect_sizes):
+def events_of(case, res, expect_sizes, plains=None):
     mode = case.mode
     srcs, dsts = names(mode)
-    roles = sp.Roles(srcs, dsts, "d", "list.txt" if mode.files else None, mode.stdout, expect_sizes)
+    roles = sp.Roles(srcs, dsts, "d", "list.txt" if mode.files else None, mode.stdout, expect_sizes, plains)
     pr = sp.parse(res["trace"], roles, case.sigsend, cwd=res["dir"])
     ev = [{"e": "Reset", "cfg": mode.cfg(), "mode": mode.name, "pert": case.label}] + pr["events"]
     ev.append({"e": "FS", "src": res["fs"][0], "dst": res["fs"][1]})
@@ -333,6 +347,10 @@ MODEL_MUTANTS = [
      ("NoOverwrite",)),
     ("--keep not honoured",
      r'''KeepSrc  == cfg.keep \/ cfg.stdout''', r'''KeepSrc  == cfg.stdout''', ("KeepNeverRemoves", "DataSafe")),
+    ("pending hole not reset per file",
+     r'''           /\ hole' = 0                         \* .dest_pending_sparse = 0 in io_open_src()''',
+     r'''           /\ UNCHANGED hole''',
+     ("PendingHoleFresh", "DataSafe")),
     ("exit status stays 0 after a failed write",
      r'''       [] k = "err"   -> /\ ~full /\ Fault(k) /\ mustWrite' = FALSE /\ pc' = "closing"
                          /\ exitStatus' = Err(exitStatus)''',
@@ -396,7 +414,7 @@ def run_v(ctx):
     sample_done = set()
 
     def record(case, res, expect_sizes):
-        ev, pr = events_of(case, res, expect_sizes)
+        ev, pr = events_of(case, res, expect_sizes, R.inputs[case.mode.name][1] if case.mode.dec else None)
         stats["runs"] += 1
         stats["by_kind"][case.kind] = stats["by_kind"].get(case.kind, 0) + 1
         if case.inject and case.kind in ("err", "swap+err", "sig+eintr") and pr["injected"] == 0:
@@ -460,8 +478,9 @@ def run_v(ctx):
         base["fs"] = R.fs_state(mode, base["dir"])
         shutil.rmtree(base["dir"], ignore_errors=True)
         record(Case(mode, "none", label="fault-free"), base, sizes)
-        ev, pr = events_of(Case(mode), base, sizes)
-        level = 2 if not ctx.quick else (1 if mode.name in ("c", "d-sparse-T4", "c-force-pre", "c-2files", "d-files-list") else 0)
+        ev, pr = events_of(Case(mode), base, sizes, outs if mode.dec else None)
+        level = 2 if not ctx.quick else (1 if mode.name in ("c", "d-sparse-T4", "c-force-pre", "c-2files", "d-files-list", "d-2f-holefirst",
+                                                              "d-2f-zerotrunc") else 0)
         cases = perturbations(mode, pr["calls"], ctx.rng, level)
         ctx.log("mode %-14s baseline: rc=%s events=%d fs=%s -> %d perturbed runs" %
                 (mode.name, base["rc"], len(ev), base["fs"], len(cases)))
